@@ -686,8 +686,11 @@ def _c18_case(case):
     L = tm.load_lib()
     out, runs = [], 0
     tool = case["cfg"]["tool"]
-    for src in ("cls", "agen", "clstruthy"):
+    nsrc_ = nsrc_of(case)
+    for src in ("cls", "agen", "clstruthy") + (("mixed",) if nsrc_ >= 2 else ()):
         fl = {"src": src, "call": "asyncdef"}
+        if src == "mixed":      # an iterator that cannot be closed ahead of closable ones: the cleanup goes on past it
+            fl = {"src": ["clsnoclose"] + ["cls"] * (nsrc_ - 1), "call": "asyncdef", "outer": "cls"}
         base = tm.execute(case, L, flav=fl, susp=1)
         n = base.nsusp
         for k in range(1, n + 1):
